@@ -20,7 +20,8 @@
 //     type; a pointer to a struct becomes `Option <structure>` and a field
 //     access through a nil pointer makes the result `none` (a panic);
 //   - statements: if / else, expression-less and tagged switch (no
-//     fallthrough), return (also naked), :=, =, op=, ++, --, var, local const
+//     fallthrough), type switch over a symbolic interface value (see below),
+//     the statement panic(…) (`none`), return (also naked), :=, =, op=, ++, --, var, local const
 //     (folded at its uses), assignments
 //     to fields of the receiver or of local struct values; statements after a
 //     branching statement are duplicated into both branches;
@@ -1348,6 +1349,8 @@ func (c *fctx) stmts(list []ast.Stmt) string {
 		return c.stmts(append(c.desugarSwitch(x), rest...))
 	case *ast.RangeStmt:
 		return c.rangeLoop(x, rest)
+	case *ast.TypeSwitchStmt:
+		return c.typeSwitch(x, rest)
 	case *ast.BranchStmt:
 		if c.loop != nil && x.Label == nil {
 			switch x.Tok {
@@ -1405,6 +1408,12 @@ func (c *fctx) stmts(list []ast.Stmt) string {
 		if c.matches(c.spec.Ignore, call) {
 			return c.stmts(rest)
 		}
+		if id, ok := call.Fun.(*ast.Ident); ok && id.Name == "panic" {
+			if _, isB := c.p.info.Uses[id].(*types.Builtin); isB {
+				c.partial = true
+				return "none"
+			}
+		}
 		if !c.trace {
 			fail("call statement %s (not ignored, no trace)", c.show(x))
 		}
@@ -1417,6 +1426,53 @@ func (c *fctx) stmts(list []ast.Stmt) string {
 	}
 	fail("statement %s (%T)", c.show(s), s)
 	return ""
+}
+
+// typeSwitch translates `switch [v :=] x.(type)` over a symbolic interface
+// value (Option String: none = nil, some t = dynamic type t): an if-chain in
+// clause order, `case nil` is `x.isNone`, `case T` is `x == some "<T>"` with T
+// printed with package names; the default clause comes last.
+func (c *fctx) typeSwitch(x *ast.TypeSwitchStmt, rest []ast.Stmt) string {
+	var ta *ast.TypeAssertExpr
+	switch a := x.Assign.(type) {
+	case *ast.ExprStmt:
+		ta, _ = a.X.(*ast.TypeAssertExpr)
+	case *ast.AssignStmt:
+		ta, _ = a.Rhs[0].(*ast.TypeAssertExpr)
+	}
+	if x.Init != nil || ta == nil || c.t.leanType(c.typeOf(ta.X)) != "(Option String)" {
+		fail("type switch %s", c.show(x.Assign))
+	}
+	subj := c.expr(ta.X)
+	if subj.partial || strings.Contains(subj.code, "«call:") {
+		fail("type switch on a partial expression %s", c.show(ta.X))
+	}
+	out, deflt := "", rest
+	closing := 0
+	for _, cl := range x.Body.List {
+		cc := cl.(*ast.CaseClause)
+		ast.Inspect(cc, func(n ast.Node) bool {
+			if b, ok := n.(*ast.BranchStmt); ok {
+				fail("branch statement %s in type switch", b.Tok)
+			}
+			return true
+		})
+		if cc.List == nil {
+			deflt = append(append([]ast.Stmt{}, cc.Body...), rest...)
+			continue
+		}
+		var conds []string
+		for _, e := range cc.List {
+			if id, ok := e.(*ast.Ident); ok && id.Name == "nil" {
+				conds = append(conds, "("+subj.code+").isNone")
+			} else {
+				conds = append(conds, fmt.Sprintf("(%s == some %q)", subj.code, types.TypeString(c.typeOf(e), func(p *types.Package) string { return p.Name() })))
+			}
+		}
+		out += fmt.Sprintf("if (%s) then\n%s\nelse (\n", strings.Join(conds, " || "), indent(c.stmts(append(append([]ast.Stmt{}, cc.Body...), rest...))))
+		closing++
+	}
+	return out + indent(c.stmts(deflt)) + strings.Repeat(")", closing)
 }
 
 func proj(code string, i, n int) string {
